@@ -19,3 +19,12 @@ func regexpCalls(m dsl.Matcher) {
 		Where(m["p"].Const).
 		Report(`C: constant pattern $p`)
 }
+
+// Two patterns of one rule that match DIFFERENT nodes starting at the same position (the
+// comparison and its left operand): the engine reports the same message at the same position
+// twice, and the same message again wherever the same length is tested once more. Whatever
+// folds, sorts or de-duplicates reports has exact duplicates and same-text neighbours to
+// deal with.
+func lengthLookedAt(m dsl.Matcher) {
+	m.Match(`len($s) != 0`, `len($s)`).Report(`C: length of $s looked at`)
+}
